@@ -156,6 +156,9 @@ def find(pid, f, repo, scratch):
         for _ in range(c.get('repeat', 1)):
             reqs.append((c['op'],) + tuple(c['input'].split('\t')))
             owner.append(ci)
+        if c.get('also'):
+            reqs.append((c['also'][0],) + tuple(c['also'][1].split('\t')))
+            owner.append(ci)
     outs = run_requests(binary, reqs)
     f['witness_search'] = dict(inputs_tried=len(fam), requests=len(reqs))
     by_case = {}
@@ -166,7 +169,10 @@ def find(pid, f, repo, scratch):
         if not gs:
             continue
         got = gs[0]
-        bad = case['bad'](gs) if case.get('repeat') else case['bad'](got)
+        if case.get('also'):
+            bad = len(gs) == 2 and case['bad'](gs[0], gs[1])
+        else:
+            bad = case['bad'](gs) if case.get('repeat') else case['bad'](got)
         if bad:
             f['witness'] = dict(public_api_input=case['input'], request=case['op'], observed=[x[:300] for x in got[:3]], expected=case['expect'],
                                 repeated=case.get('repeat', 1), family=f.get('clause'))
@@ -203,6 +209,98 @@ def family_table():
                     return True
             return False
         yield dict(op='compile', input=inp, expect='table = %s, each under the tag of its printer definition' % want, bad=bad)
+
+
+def family_options():
+    """C13 (front end, bounded): options inserted at word boundaries; the returned options carry the last value of each, the tree is
+    the tree of the expression with every misplaced option read as -true (leading ones removed)"""
+    import itertools
+    bases = [['-name', 'x'], ['-name', 'x', '-o', '-print'], ['(', '-true', ')'], ['!', '-name', 'x', '-size', '+1k']]
+    opts = ['-depth', '-threads 2', '-threads 8']
+    for base in bases:
+        # insertion points: before word i (never between a keyword and its argument)
+        points = [i for i in range(len(base) + 1) if i == 0 or base[i - 1] not in ('-name', '-size')]
+        for k in (1, 2):
+            for chosen in itertools.product(opts, repeat=k):
+                for where in itertools.combinations_with_replacement(points, k):
+                    words, ref = [], []
+                    ins = sorted(zip(where, range(k)))
+                    leading = True
+                    seq = []   # options in input order
+                    for i in range(len(base) + 1):
+                        for (pos, j) in ins:
+                            if pos == i:
+                                words.append(chosen[j]); seq.append(chosen[j])
+                                if not (leading and i == 0):
+                                    ref.append('-true')
+                        if i < len(base):
+                            words.append(base[i]); ref.append(base[i]); leading = False
+                    threads = None
+                    for o in seq:
+                        if o.startswith('-threads'):
+                            threads = int(o.split()[1])
+                    depth = '-depth' in seq
+                    want = 'RunOptions { depth: %s, threads: %s }' % ('true' if depth else 'false', 'Some(%d)' % threads if threads is not None else 'None')
+                    yield dict(op='parse', input=' '.join(words), also=('parse', ' '.join(ref) if ref else '-true'),
+                               expect='%s and the tree of `%s`' % (want, ' '.join(ref)),
+                               bad=(lambda g, g2, want=want: g[0] != 'OK' or g2[0] != 'OK' or g[1] != want or g[2] != g2[2]))
+
+
+def family_parse_total():
+    """C03 (front end, bounded): rejected and odd inputs — every prefix and single-character mutation of a few valid inputs, long and
+    non-ASCII words as keyword, as argument and as trailing junk: parse returns a value, never panics"""
+    valid = ['-name x -o -print', '-size +10k -a ! -type f,d', '-perm -u+rw,g=r -printf "%p\\n"', '( -uid 0 , -mmin -5 ) -fprint out',
+             '-threads 4 -depth -xattr-match a b', '-perm 0644']
+    seen = set()
+    for v in valid:
+        for i in range(len(v) + 1):
+            for cand in (v[:i], v[:i] + '\u00e9' + v[i:], v[:i] + '"' + v[i:], v[:i] + '(' + v[i + 1:], v[:i] + ' ' + v[i:]):
+                if cand not in seen:
+                    seen.add(cand)
+                    yield dict(op='parse', input=cand, expect='a result or an error value, never a panic', bad=lambda g: g[0] == 'PANIC')
+    for kw in ('', '-', '-name ', '-uid ', '-size ', '-perm ', '-type ', '-printf ', '-fprint ', '-newer ', '-threads ', '-amin +'):
+        for ch in ('x', '\u00e9', '\u20ac', '\U0001F600'):
+            for pad in range(0, 4):
+                for n in (1, 15, 16, 23, 24, 31, 32, 44, 45, 46, 47, 48, 63, 64, 100):
+                    yield dict(op='parse', input=kw + 'y' * pad + ch * n + ' tail', expect='a result or an error value, never a panic', bad=lambda g: g[0] == 'PANIC')
+
+
+def family_parse_numbers():
+    """C07 (front end, bounded): decimal arguments around the range limits of every numeric primary: exact or rejected"""
+    u32max, u64max = 2 ** 32 - 1, 2 ** 64 - 1
+    prims32 = [('-uid', 'UserId'), ('-gid', 'GroupId'), ('-inum', 'InodeNumber'), ('-mirror-count', 'MirrorCount'), ('-stripe-count', 'StripeCount')]
+    for kw, node in prims32:
+        for v in (0, 1, 7, 2 ** 31, u32max, u32max + 1, 2 ** 33, u64max, u64max + 1, 10 ** 30):
+            for pre, cmp_ in (('', 'Equal'), ('+', 'GreaterThan'), ('-', 'LesserThan')):
+                for zeros in ('', '000'):
+                    txt = '%s %s%s%d' % (kw, pre, zeros, v)
+                    want = 'Test(%s(%s(%d)))' % (node, cmp_, v)
+                    if v <= u32max:
+                        yield dict(op='parse', input=txt, expect=want, bad=(lambda g, want=want: g[0] != 'OK' or g[2] != want))
+                    else:
+                        yield dict(op='parse', input=txt, expect='rejected', bad=lambda g: g[0] == 'OK')
+    for v in (0, 5, u32max + 1, u64max, u64max + 1, 10 ** 30):
+        txt = '-links %d' % v
+        want = 'Test(Links(Equal(%d)))' % v
+        if v <= u64max:
+            yield dict(op='parse', input=txt, expect=want, bad=(lambda g, want=want: g[0] != 'OK' or g[2] != want))
+        else:
+            yield dict(op='parse', input=txt, expect='rejected', bad=lambda g: g[0] == 'OK')
+    for unit, node in (('c', 'Byte'), ('w', 'Word'), ('b', 'Block'), ('k', 'KiloByte'), ('M', 'MegaByte'), ('G', 'GigaByte'), ('T', 'TeraByte'), ('', 'Block')):
+        for v in (0, 1, u64max, u64max + 1):
+            txt = '-size %d%s' % (v, unit)
+            want = 'Test(Size(Equal(%s(%d))))' % (node, v)
+            if v <= u64max:
+                yield dict(op='parse', input=txt, expect=want, bad=(lambda g, want=want: g[0] != 'OK' or g[2] != want))
+            else:
+                yield dict(op='parse', input=txt, expect='rejected', bad=lambda g: g[0] == 'OK')
+    for v in (0, 3, u32max, u32max + 1):
+        txt = '-threads %d -true' % v
+        if v <= u32max:
+            want = 'RunOptions { depth: false, threads: Some(%d) }' % v
+            yield dict(op='parse', input=txt, expect=want, bad=(lambda g, want=want: g[0] != 'OK' or g[1] != want))
+        else:
+            yield dict(op='parse', input=txt, expect='rejected', bad=lambda g: g[0] == 'OK')
 
 
 def family_determinism():
@@ -307,6 +405,7 @@ def family_hostile():
 
 
 GENERATED = {
+    'BOUNDED.parse_options': family_options, 'BOUNDED.parse_total': family_parse_total, 'BOUNDED.parse_numbers': family_parse_numbers,
     'ASSUME.printer_map': family_table, 'C10.table.keys': family_table,
     'C09.top.wrap_decision': family_wrap, 'C19.action.iff': family_wrap, 'C09.emit.structure': family_wrap,
     'C12.refusal.iff': family_refusal, 'C12.top.iff': family_refusal,
@@ -376,6 +475,13 @@ CANNED = {
 
 # functions left outside the verifier (assumed contracts) that get a BOUNDED stand-in: the family is run on every check
 BOUNDED_STANDINS = {
+    'C13': [('BOUNDED.parse_options', 'BOUNDED.parse_options', 'find_parser::_parse (winnow combinators and closures over &mut state: outside the verifier) — bounded '
+             'stand-in: 1..2 options out of {-depth, -threads 2, -threads 8} inserted at every word boundary of 4 base expressions; the options returned '
+             'carry the last value of each and the tree is that of the expression with misplaced options read as -true')],
+    'C03': [('BOUNDED.parse_total', 'BOUNDED.parse_total', 'find_parser::parse incl. ParserError::dispatch (outside the verifier) — bounded stand-in: every prefix and '
+             'four single-character mutations at every position of 6 valid inputs, and long / non-ASCII words after 12 keywords: never a panic')],
+    'C07': [('BOUNDED.parse_numbers', 'BOUNDED.parse_numbers', 'the digit-run conversions of find_parser (winnow try_map over str::parse: outside the verifier) — bounded '
+             'stand-in: decimal arguments around 0, 2^31, 2^32, 2^64 and 10^30 for every numeric primary, with signs and leading zeros: exact in the tree or rejected')],
     'C10': [('BOUNDED.printer_map', 'ASSUME.printer_map',
              'DistributedSchemeManager::printer_map (iterator over the hash map: external_body) — bounded stand-in: all expressions of up to 3 '
              'output actions over 6 destination/terminator kinds; the table must be the inverse of the tag map')],
@@ -385,7 +491,7 @@ BOUNDED_STANDINS = {
 def bounded_standins(pid, repo, scratch):
     out = []
     for name, key, claim in BOUNDED_STANDINS.get(pid, []):
-        f = dict(id=name, clause=key, kind='bounded', fn='SchemeManager for DistributedSchemeManager::printer_map', cfg='replay',
+        f = dict(id=name, clause=key, kind='bounded', fn=claim.split(' (')[0], cfg='replay',
                  message=claim, rendered='', repo_file=None, repo_line=None, expr='')
         find(pid, f, repo, scratch)
         out.append((name, claim, f))
